@@ -36,16 +36,20 @@ fn vq_c10_bbr_minimum_window() {
     kani::cover!(mds == 1200, "reach:mds_min");
     kani::cover!(mds == 9000, "reach:mds_max");
     kani::cover!(iw == min && min > 14720, "reach:initial_window_raised_to_minimum");
+    // outside the property's domain (datagram sizes above 16383 bytes) the u16 product 4 * mds would overflow:
+    // a debug-build panic / release-build wrap of the floor.  Not reachable for mds <= 9000; recorded in the report.
     kani::cover!(true, "reach:end");
 }
 
-//@ harness props=C10 tier=quick level=bounded timeout=300 bound="bandwidth / data-volume / round / full-pipe model state as constructed by new(); cwnd, datagram size, newly acked bytes, BBR state kind symbolic"
+//@ harness props=C10 tier=thorough level=bounded timeout=1800 bound="datagram size 1200 or 9000; bandwidth / data-volume / round / full-pipe model state as constructed by new(); cwnd, newly acked bytes, BBR state kind (Startup, Drain, ProbeRtt) symbolic"
 //@ fn BbrCongestionController::set_cwnd
 //@ fn BbrCongestionController::bound_cwnd_for_model
 #[kani::proof]
-#[kani::unwind(6)]
+#[kani::unwind(70)]
 fn vq_c10_bbr_set_cwnd_floor() {
-    let mds = any_mds();
+    // max_inflight()/inflight_with_headroom() go through num_rational (gcd loops): not loop-free, hence concrete
+    // datagram sizes and a generous unwind bound; unwinding assertions stay on
+    let mds: u16 = if kani::any() { 1200 } else { 9000 };
     let mut bbr = BbrCongestionController::new(mds, Default::default());
     bbr.cwnd = kani::any();
     bbr.state = match kani::any::<u8>() % 3 {
